@@ -131,3 +131,42 @@ def install_split_contract():
     err = lambda names, result: PostBroken(LAST.get("split_names_post"))  # noqa: E731
     N.split_multiple_persons_names = icontract.ensure(_split_post, error=err)(N.split_multiple_persons_names)
     _INSTALLED.add("split")
+
+
+def _parse_name_post(name, result):
+    """word conservation of parse_single_name_into_parts on valid names (C13)."""
+    from ..ref import names as R
+    COUNT["parse_name_post"] += 1
+    why = None
+    if not isinstance(name, str):
+        COUNT["parse_name_post_out_of_quantifier"] += 1
+    else:
+        try:
+            secs = R.tokenize(name)
+        except R.Invalid:
+            why = "invalid-name-accepted"
+            secs = None
+        if secs is not None:
+            got = [list(result.first), list(result.von), list(result.last), list(result.jr)]
+            if not any(secs):
+                ok = got == [[], [], [], []]
+            elif len(secs) == 1:
+                ok = got[0] + got[1] + got[2] == secs[0] and got[3] == []
+            elif len(secs) == 2:
+                ok = got[1] + got[2] == secs[0] and got[0] == secs[1] and got[3] == []
+            else:
+                ok = got[1] + got[2] == secs[0] and got[3] == secs[1] and got[0] == secs[2]
+            if not ok:
+                why = "words-not-conserved"
+    LAST["parse_name_post"] = why
+    return why is None
+
+
+def install_parse_name_contract():
+    if "parse_name" in _INSTALLED:
+        return
+    from bibtexparser.middlewares import names as N
+    ORIG["parse_name"] = N.parse_single_name_into_parts
+    err = lambda name, result: PostBroken(LAST.get("parse_name_post"))  # noqa: E731
+    N.parse_single_name_into_parts = icontract.ensure(_parse_name_post, error=err)(N.parse_single_name_into_parts)
+    _INSTALLED.add("parse_name")
